@@ -582,8 +582,10 @@ class Producer(object):
             Params:
             failed_payloads - list of (payload, failure) tuples
             """
-            # Do we have retries left?
-            if self._req_attempts >= self._max_attempts:
+            # Do we have retries left? (None once stop() has been called: it
+            # cancelled the request, which the client reports as failed
+            # payloads, and nothing may be transmitted after stop().)
+            if self._req_attempts >= self._max_attempts or self.stopping:
                 # No, no retries left, fail each failed_payload with its
                 # associated failure
                 for p, f in failed_payloads_with_errs:
